@@ -33,7 +33,7 @@ ASSUMPTIONS = [
 ]
 TIME_LIMIT = {"quick": 1200, "thorough": 7200}
 
-RW = ["xyz", "sdf"]
+RW = ["xyz", "sdf", "pdb"]
 
 
 def correspond(ctx):
